@@ -25,6 +25,7 @@ import time
 import vk
 
 FAMILY = "lightclients"
+SOURCES = ["harness-wasm"]        # /verif paths outside spec/ harness/ families/ lib/ that this family's result depends on
 SPEC_DIR = os.path.join(vk.SPEC, "lightclients")
 PROPS = ["C26", "C27", "C28", "C29"]
 HOOK_FILE = "modules/light-clients/08-wasm/recovery_store_verif.go"
